@@ -17,11 +17,11 @@ PROPS_TL = 'FreshModKnown PutOutcome'
 
 # name, callers, cap, N, MaxSess, MaxOwed, MaxUnread, features
 QUICK = [
-    ('core-2callers', [1, 2], 1, 2, 1, 1, 1, ['peerclose', 'reply']),
-    ('fallback-1caller', [1], 1, 2, 1, 1, 2, ['fb', 'reply', 'peerclose']),
-    ('sessionloss-1caller', [1], 1, 2, 2, 1, 1, ['sess', 'rebuild', 'peerclose', 'reply']),
-    ('cap2-2callers', [1, 2], 2, 3, 1, 1, 1, ['peerclose']),
-    ('unflushed-1caller', [1], 1, 2, 1, 2, 1, ['write', 'reply', 'peerclose']),
+    ('core-2callers', [1, 2], 1, 3, 1, 2, 2, ['peerclose', 'reply']),
+    ('fallback-1caller', [1], 1, 3, 1, 2, 2, ['fb', 'reply', 'peerclose', 'closeheld']),
+    ('sessionloss-1caller', [1], 1, 3, 2, 1, 1, ['sess', 'rebuild', 'peerclose', 'reply', 'closeheld']),
+    ('cap2-2callers', [1, 2], 2, 3, 1, 1, 1, ['peerclose', 'reply']),
+    ('unflushed-1caller', [1], 1, 3, 1, 2, 2, ['write', 'reply', 'peerclose', 'closeheld']),
 ]
 THOROUGH = QUICK + [
     ('sessionloss-2callers', [1, 2], 1, 2, 2, 1, 1, ['sess', 'rebuild', 'peerclose']),
@@ -370,7 +370,7 @@ def run(prop, tier, seed, replay=None):
         ck.add('transitions', len(edges))
         hs = histories_from_graph(name, plan, nodes, edges, inits)
         total = len(hs)
-        limit = 250 if quick else 3000
+        limit = 600 if quick else 3000
         if len(hs) > limit:
             hs = rng.sample(hs, limit)
         per_plan[name] = (res, len(edges), total, len(hs))
